@@ -51,7 +51,10 @@ Inductive op :=
 | PTlsWith (key : nat) (add : N)   (* KEY.try_with(|c| { let old = c.get(); c.set(old + add); old }) *)
 | PThreadId                        (* thread::current().id(), and whether thread::current().name() is the name given at spawn *)
 | PScope (z : nat) (body : nat)    (* thread::scope(|s| body): the body runs inline, its PScopeSpawn use `s` *)
-| PScopeSpawn (z : nat) (body : nat).  (* s.spawn(body); the ScopedJoinHandle becomes the task's next handle *)
+| PScopeSpawn (z : nat) (body : nat)   (* s.spawn(body); the ScopedJoinHandle becomes the task's next handle *)
+| PAcqNew (q slot s : nat) (n : N)     (* slot := sem.acquire(n): an Acquire future kept in the shared slot table q *)
+| PAcqPoll (q slot s : nat)            (* one poll of that future by the running task (with its waker) *)
+| PAcqDrop (q slot s : nat).           (* drop of that future *)
 
 (* result tags used in EvOp records; the harness prints the same numbers *)
 Definition TAG_SPAWN : N := 1.  Definition TAG_JOIN : N := 2.   Definition TAG_YIELD : N := 3.
@@ -67,6 +70,7 @@ Definition TAG_BARRIER : N := 27. Definition TAG_CALLONCE : N := 28. Definition 
 Definition TAG_INIT : N := 30.
 Definition TAG_ASPAWN : N := 31. Definition TAG_AWAIT : N := 32. Definition TAG_ABORT : N := 33. Definition TAG_DETACH : N := 34.
 Definition TAG_AYIELD : N := 35. Definition TAG_BLOCKON : N := 36. Definition TAG_ISFINISHED : N := 37.
+Definition TAG_QNEW : N := 42. Definition TAG_QPOLL : N := 43. Definition TAG_QDROP : N := 44.
 Definition TAG_TLS : N := 38. (* TAG_TLSDROP = 39: Lang/ThreadOps.v *) Definition TAG_TID : N := 40. Definition TAG_SCOPE : N := 41.
 (* the value a thread's closure returns (and join hands over): a function of the thread's id *)
 Definition thread_value (t : nat) : N := (1000 + N.of_nat t)%N.
@@ -282,6 +286,9 @@ Fixpoint comp (fuel : nat) (jt : nat) (bodies : list (list op)) (b : nat) (ctx :
                 (comp f jt bodies j ctx
                    (fun gs' ahs' => drop_guards true gs' (detach_all ahs' (scope_end z (Log TAG_SCOPE [] (go r hs js gs ahs)))))
                    (gs ++ outer)))
+         | PAcqNew q slot o n => acq_new_code q slot o n (Log TAG_QNEW [N.of_nat slot] (go r hs js gs ahs))
+         | PAcqPoll q slot o => acq_poll_code q slot o (fun res => Log TAG_QPOLL [N.of_nat slot; res] (go r hs js gs ahs))
+         | PAcqDrop q slot o => acq_drop_code q slot o (Log TAG_QDROP [N.of_nat slot] (go r hs js gs ahs))
          | PScopeSpawn z j =>
            atomic_u (fun e st => match scope_get st z with
                                  | Some (rn, m, w) => Some (e, set_obj st z (OScope (S rn) m w))
